@@ -1,7 +1,8 @@
 #!/bin/bash
 # For every "fix:" commit in /repo: reverse-apply it on the working tree (when it still applies), run the checks of the
-# properties it repaired, and restore /repo. Shows that each check reports the original defect again if it returns.
+# properties it repaired, and restore the tree. Shows that each check reports the original defect again if it returns.
 cd "$(dirname "$0")/.."
+. scripts/env.sh   # VERIF_REPO=<clone> runs the whole matrix without touching /repo; ONLY=<commit,...> restricts it
 python3 - <<'PY' > .work/fixes.txt
 import json
 k=json.load(open('known_findings.json'))
@@ -11,12 +12,13 @@ for f in k:
 for c,p in by.items(): print(c,' '.join(sorted(p)))
 PY
 while read commit props; do
-  git -C /repo diff --quiet || { echo "/repo not clean"; exit 2; }
-  if ! git -C /repo show $commit -- . ':!*_test.go' | git -C /repo apply -R 2>/dev/null; then echo "$commit: reverse patch no longer applies (later fixes touch the same lines)"; continue; fi
+  [ -n "$ONLY" ] && ! echo ",$ONLY," | grep -q ",$commit," && continue
+  git -C "$VERIF_REPO" diff --quiet || { echo ""$VERIF_REPO" not clean"; exit 2; }
+  if ! git -C "$VERIF_REPO" show $commit -- . ':!*_test.go' | git -C "$VERIF_REPO" apply -R 2>/dev/null; then echo "$commit: reverse patch no longer applies (later fixes touch the same lines)"; continue; fi
   for p in $props; do
     o=$(scripts/check.sh $p quick 2>&1); rc=$?
     keys=$(echo "$o" | grep -A1 '^VIOLATION' | grep 'key=' | sed 's/.*key=//' | head -3 | tr '\n' ';')
     echo "$commit reverted: $p exit=$rc $keys"
   done
-  git -C /repo checkout -q -- . ; git -C /repo clean -fdq
+  git -C "$VERIF_REPO" checkout -q -- . ; git -C "$VERIF_REPO" clean -fdq
 done < .work/fixes.txt
